@@ -438,6 +438,128 @@ class SyncIterFinalizeNoop(SyncIterFinalize):
     canaries = ()
 
 
+
+# ================================================================ AsyncIter (sync source consumed from async code) and the thread entry points
+class AsyncIterIter(Unit):
+    """AsyncIter.__aiter__ over a sync source: every element, in order, exactly once -- each obtained by next(instream, FINISHED) on the loop's default executor
+    (one call at a time, awaited before the next) -- and the stream ends when the source is exhausted; the source's exception propagates after the elements
+    before it.  (Precondition, as everywhere: no element equals the internal sentinel.)"""
+    prop = 'C05'
+    file = FA
+    qual = 'AsyncIter.__aiter__'
+    unreachable_ok = ('async for x in self._instream:', 'yield x\n')
+    canaries = (('element after a falsy one dropped', '                if x == finished:  # `instream_` exhausted\n                    break', '                if not x or x == finished:\n                    break', ''),
+                ('an element is skipped', '                    break\n                yield x', '                    break\n                x = await loop.run_in_executor(None, next, instream, finished)\n                yield x', ''))
+
+    def setup(self, ex):
+        st = St()
+        from contracts.fifo import NamedSource, src_at
+        self.src_at = src_at
+        self.src = NamedSource(ex, 'src', may_raise=('Exception',))
+        self.src.init(st)
+        st.env['self'] = Rec(ex, 'self', immutable=True).init(st, _instream=self.src)
+        st.ghost['out'] = V.EMPTY
+        set_sentinel_globals(ex)
+        ex.globals['isasynciterable'] = Fn(lambda e, s, a, k, n: [('ok', s, z3.BoolVal(False))])
+        ex.globals['iter'] = Fn(lambda e, s, a, k, n: [('ok', s, unbox_handle(e, a[0]))])
+        unit = self
+
+        def run_in_executor(e, s, a, k, n):
+            # loop.run_in_executor(None, next, instream, finished): the awaited outcome of next(instream, finished)
+            ok = len(a) == 4 and unbox_handle(e, a[2]) is unit.src
+            e.oblige(s, f'line {n.lineno}: the element is obtained by next(<the source iterator>, FINISHED) on the default executor', z3.And(z3.BoolVal(bool(ok)), box(e, a[0]) == NONE, box(e, a[3]) == FINISHED) if ok else z3.BoolVal(False))
+            res = []
+            for kind, s1, x in unit.src.pull(e, s, n):
+                if kind == 'stop':
+                    res.append(('ok', s1, FINISHED))
+                elif kind == 'raise':
+                    res.append(('raise', s1, x))
+                else:
+                    s1.assume(*not_sentinel(x))
+                    res.append(('ok', s1, x))
+            return res
+        ex.globals['asyncio.get_running_loop'] = Fn(lambda e, s, a, k, n: [('ok', s, Rec(e, 'loop', immutable=True, methods={'run_in_executor': Fn(run_in_executor)}))])
+        ex.globals['next'] = z3.Const('builtin_next', Val)
+        return st
+
+    @property
+    def loops(self):
+        return {1: LoopSpec(inv=lambda s, ex: z3.And(s.ghost['out'] == self.src.seen(s), z3.Not(self.src.done(s)), z3.Not(self.src.failed(s))), keep=('loop', 'instream', 'finished'))}
+
+    def on_yield(self, ex, st, val, node):
+        st.ghost['out'] = z3.Concat(st.ghost['out'], z3.Unit(val))
+        ex.oblige(st, f'line {node.lineno}: the outputs so far are exactly the elements pulled so far (identity, in order, no look-ahead)', st.ghost['out'] == self.src.seen(st))
+
+    def post(self, ex, outs):
+        for k, s, p in outs:
+            if k in ('normal', 'return'):
+                ex.oblige(s, 'exit: the source is exhausted and every element was yielded, in order, exactly once', z3.And(self.src.done(s), s.ghost['out'] == self.src.seen(s)))
+            else:
+                ex.oblige(s, 'exit(raise): only the source\'s own exception, after all the elements before it', z3.And(self.src.failed(s), s.ghost['out'] == self.src.seen(s)))
+
+
+def runs_main(qual_, file_):
+    class U(Unit):
+        """the worker thread's entry point: runs the local coroutine main() to completion on a fresh event loop, once, and -- before the thread ends --
+        finalizes the async generators main() left suspended (an early stop leaves `async for x in self._instream` suspended inside the upstream
+        generators: their `finally` blocks -- which stop and join THEIR helper threads -- only run when the loop shuts its async generators down).
+        asyncio.run does both; a hand-made loop must run loop.shutdown_asyncgens() to completion after main() and before close()."""
+        prop = 'C05'
+        file = file_
+        qual = qual_
+        coroutines_are_objects = True
+        inlined_defs = ()
+        canaries = (('worker coroutine never run', '        asyncio.run(main())', '        pass', ''),
+                    ('upstream async generators never finalized (their helper threads leak)', '        asyncio.run(main())',
+                     '        loop = asyncio.new_event_loop()\n        try:\n            loop.run_until_complete(main())\n        finally:\n            loop.close()', 'finalized'))
+
+        def setup(self, ex):
+            from pyvc.core import CoroutineObj
+            st = St()
+            st.env['self'] = Rec(ex, 'self', immutable=True)
+            st.ghost['ran'] = ()            # what was run to completion, in order: 'main' / 'asyncgens' / 'close'
+
+            def what(e, a):
+                co = unbox_handle(e, a[0])
+                if isinstance(co, CoroutineObj):
+                    return 'main' if (co.clo.node.name, len(co.args)) == ('main', 0) else 'other'
+                return 'asyncgens' if co is self.shut else 'other'
+
+            def run(e, s, a, k, n):
+                s = s.fork()
+                s.ghost['ran'] = s.ghost['ran'] + (what(e, a), 'asyncgens', 'close')
+                return [('ok', s, NONE)]
+
+            def run_until_complete(e, s, a, k, n):
+                s = s.fork()
+                s.ghost['ran'] = s.ghost['ran'] + (what(e, a),)
+                return [('ok', s, NONE)]
+
+            def close(e, s, a, k, n):
+                s = s.fork()
+                s.ghost['ran'] = s.ghost['ran'] + ('close',)
+                return [('ok', s, NONE)]
+            self.shut = Rec(ex, 'shutdown_asyncgens()', immutable=True)
+            loop = Rec(ex, 'loop', immutable=True, methods={'run_until_complete': Fn(run_until_complete), 'close': Fn(close), 'shutdown_asyncgens': Fn(lambda e, s, a, k, n: [('ok', s, self.shut)])})
+            ex.globals['asyncio.run'] = Fn(run, trusted='asyncio.run(coro) runs the coroutine to completion on a new event loop, then cancels what is left, shuts the async generators down and closes the loop')
+            ex.globals['asyncio.new_event_loop'] = Fn(lambda e, s, a, k, n: [('ok', s, loop)], trusted='loop.run_until_complete(x) runs x to completion; loop.shutdown_asyncgens() closes every suspended async generator')
+            ex.globals['asyncio.set_event_loop'] = Fn(lambda e, s, a, k, n: [('ok', s, NONE)])
+            return st
+
+        def post(self, ex, outs):
+            for k, s, p in outs:
+                ran = s.ghost['ran']
+                ex.oblige(s, 'exit: main() is run to completion exactly once, then returns (main itself never raises: unit ...<locals>.main)', z3.BoolVal(k in ('normal', 'return') and ran.count('main') == 1 and 'other' not in ran))
+                ex.oblige(s, 'exit: [C05] the async generators main() left suspended are finalized after main() and before the loop is closed (asyncio.run, or loop.shutdown_asyncgens() run to completion): '
+                             'an early stop otherwise leaves the upstream stages\' helper threads running',
+                          z3.BoolVal('main' in ran and 'asyncgens' in ran[ran.index('main'):] and 'close' in ran and ran.index('main') < len(ran) - 1 - ran[::-1].index('asyncgens') < len(ran) - 1 - ran[::-1].index('close')
+                                     if 'main' in ran and 'asyncgens' in ran and 'close' in ran else False))
+    U.__name__ = 'RunsMain_' + qual_.replace('.', '_')
+    return U
+
+
+ENTRY_UNITS = [AsyncIterIter, runs_main('AsyncBuffer._run_worker', FA), runs_main('SyncIter._worker', FA)]
+
 UNITS = [ABufFinalizeNoop, SyncIterFinalizeNoop, RunWorker, RunWorkerNoExtern, RunWorkerUnderStop, BufIter, BufStart, BufFinalize, BufFinalizeNoop,
          ARunWorker, ARunWorkerUnderStop, ABufStart, ABufFinalize, ABufIter, SyncIterStart, SyncIterFinalize]
 
